@@ -927,7 +927,26 @@ class ProcResult:
         return "nonzero"
 
 
-def run_process(ip: Interposer, fn: Any, stdin_bytes: bytes = b"", cwd: str | None = None, uid_seed: int = 0) -> ProcResult:
+def discovered_env_names(src: str) -> list[str]:
+    """Environment variables the code under test reads (string literals next to environ/getenv in
+    its source): the environment is an input of the process, so workloads vary exactly these."""
+    import re
+
+    pat = re.compile(r"""(?:environ\.get\(|environ\[|getenv\(|environ\.pop\(|in\s+os\.environ)\s*["']([A-Za-z_][A-Za-z0-9_]*)["']|["']([A-Za-z_][A-Za-z0-9_]*)["']\s+(?:not\s+)?in\s+os\.environ""")
+    names: set[str] = set()
+    for dp, _dn, fns in os.walk(os.path.join(src, "flowmark")):
+        for fn_ in fns:
+            if fn_.endswith(".py"):
+                try:
+                    with _real_io_open(os.path.join(dp, fn_), encoding="utf-8") as f:
+                        for m in pat.finditer(f.read()):
+                            names.add(m.group(1) or m.group(2))
+                except OSError:
+                    pass
+    return sorted(names)
+
+
+def run_process(ip: Interposer, fn: Any, stdin_bytes: bytes = b"", cwd: str | None = None, uid_seed: int = 0, env: dict[str, str] | None = None) -> ProcResult:
     """
     Run fn() as the simulated process: install the interposer and fake streams, chdir, seed
     strif's uid stream; afterwards flush stdout as interpreter exit would (unless dead), release
@@ -973,6 +992,8 @@ def run_process(ip: Interposer, fn: Any, stdin_bytes: bytes = b"", cwd: str | No
     threads_before = set(_thr.enumerate())
     ip.install()
     sys.stdin, sys.stdout, sys.stderr = stdin, stdout, stderr
+    saved_env = {k_: os.environ.get(k_) for k_ in (env or {})}
+    os.environ.update(env or {})
     try:
         try:
             rc = fn()
@@ -1013,6 +1034,11 @@ def run_process(ip: Interposer, fn: Any, stdin_bytes: bytes = b"", cwd: str | No
             except BaseException:  # noqa: BLE001
                 pass
     finally:
+        for k_, v_ in saved_env.items():
+            if v_ is None:
+                os.environ.pop(k_, None)
+            else:
+                os.environ[k_] = v_
         sys.stdin, sys.stdout, sys.stderr = old
         ip.finish()
         ip.uninstall()
